@@ -382,20 +382,20 @@ func TestC20(t *testing.T) {
 	cfiles := deterministicCorpus()
 	rec.R.Extra["deterministic_corpus_files"] = len(cfiles)
 	scratch := filepath.Join(dir, "corpus")
-	exec.Command("cp", "-r", "/repo/tests", scratch).Run()
+	exec.Command("cp", "-r", sb.Repo()+"/tests", scratch).Run()
 	kc := 3
 	if cfg.Thorough() {
 		kc = 8
 	}
 	for i, f := range cfiles {
-		if !cfg.Mine(i) || !strings.HasPrefix(f, "/repo/tests/") {
+		if !cfg.Mine(i) || !strings.HasPrefix(f, sb.Repo()+"/tests/") {
 			continue
 		}
 		if time.Now().After(dl.Add(-time.Until(dl) / 2)) {
 			rec.Note("corpus repetition stopped by budget at file %d/%d", i, len(cfiles))
 			break
 		}
-		local := filepath.Join(scratch, strings.TrimPrefix(f, "/repo/tests/"))
+		local := filepath.Join(scratch, strings.TrimPrefix(f, sb.Repo()+"/tests/"))
 		var runs []string
 		for r := 0; r < kc; r++ {
 			res := sb.RunCLI(filepath.Dir(local), local, 20*time.Second)
@@ -411,9 +411,9 @@ func TestC20(t *testing.T) {
 			continue
 		}
 		rec.NonTrivial("corpus", f)
-		rec.Label("corpus.file", strings.TrimPrefix(f, "/repo/"))
+		rec.Label("corpus.file", strings.TrimPrefix(f, sb.Repo()+"/"))
 		if same, j := allSame(runs); !same {
-			rec.Fail("cell:repeat-cli:corpus:"+strings.TrimPrefix(f, "/repo/"), fmt.Sprintf("%s: process 1 and process %d differ:\n  %q\n  %q", f, j+1, clip(runs[0], 300), clip(runs[j], 300)), c20Case{Kind: "corpus", File: f})
+			rec.Fail("cell:repeat-cli:corpus:"+strings.TrimPrefix(f, sb.Repo()+"/"), fmt.Sprintf("%s: process 1 and process %d differ:\n  %q\n  %q", f, j+1, clip(runs[0], 300), clip(runs[j], 300)), c20Case{Kind: "corpus", File: f})
 		}
 	}
 	rec.Flush()
